@@ -14,6 +14,7 @@ ItemsOfTemplate(t, i) ==
       [] t = "SEA"  -> << It(10 + i, "struct", i), It(20 + i, "enum", i), It(30 + i, "alias", i) >>
       [] t = "C"    -> << It(40 + i, "const", i) >>
       [] t = "SC"   -> << It(10 + i, "struct", i), It(40 + i, "const", i) >>
+      [] t = "Conly" -> << It(40 + i, "const", i) >>       \* a file with nothing but a constant (the harness adds no marker struct)
       [] t = "TieS" -> << It(77, "struct", i) >>
       [] t = "TieE" -> << It(77, "enum", i) >>
       [] t = "Ref"  -> << It(50 + i, "struct", i) >>        \* refers to the struct/marker of file 1
